@@ -49,6 +49,10 @@ type Failure struct {
 	Blocked  []string `json:"blocked,omitempty"`
 	Stack    string   `json:"stack,omitempty"`
 	MinInfo  string   `json:"minimised,omitempty"`
+	// BatchFrom (race mode): first run of the worker batch the failing run was
+	// part of.  ThreadSanitizer's verdict depends on what the process did before
+	// (see doReplay), so a replay re-executes the batch up to the failing run.
+	BatchFrom *int `json:"batch_from,omitempty"`
 }
 
 // WorkerOut is what one worker process reports.
@@ -275,7 +279,12 @@ func doRuns(t *testing.T, p *Prop) {
 		if o.Viol != nil {
 			out.FailCount[o.Viol.Class]++
 			if out.FailCount[o.Viol.Class] == 1 && len(out.Failures) < 6 {
-				out.Failures = append(out.Failures, mkFailure(p, *fTier, *fSeed, run, *fAvoid, o))
+				fl := mkFailure(p, *fTier, *fSeed, run, *fAvoid, o)
+				if p.RaceMode {
+					bf := *fFrom
+					fl.BatchFrom = &bf
+				}
+				out.Failures = append(out.Failures, fl)
 			}
 			total := 0
 			for _, n := range out.FailCount {
@@ -312,6 +321,23 @@ func replayOnce(t *testing.T, p *Prop, f Failure, W, S []uint32) Outcome {
 
 func doReplay(t *testing.T, p *Prop) {
 	f := loadFailure(*fReplay)
+	if p.RaceMode && f.BatchFrom != nil {
+		// ThreadSanitizer judges by happens-before, and what the process did before
+		// matters: the first pass through lazily initialised state (sync.Once,
+		// encoding/gob's type cache, pools) orders the tasks that run into it, and a
+		// racing pair is reported once per process.  The recorded run was one of a
+		// worker's batch; every run is a function of (seed, index), so the batch is
+		// executed again up to the failing run, whose recorded choices are then
+		// replayed.  A report of the same class anywhere in that prefix counts.
+		st := newStats(p.ID)
+		for run := *f.BatchFrom; run < f.Run; run++ {
+			sd := mixSeed(f.Seed, run)
+			po := runOne(t, p, f.Tier, simrt.NewChoices(sd), simrt.NewChoices(sd^0x5DEECE66D), avoidSet(f.Avoid), st)
+			if po.Viol != nil && po.Viol.Class == f.Class {
+				fmt.Printf("REPLAY note: class %q already reported by run %d of the batch\n", f.Class, run)
+			}
+		}
+	}
 	o := replayOnce(t, p, f, f.W, f.S)
 	class, msg := "", ""
 	if o.Viol != nil {
